@@ -1,12 +1,14 @@
 (* C06 — results are invariant under reordering and consistent renaming.
-   Property theorems only; proofs in Engine/Main.v. *)
+   Property theorems only; proofs in Engine/Main.v and Engine/Invariance*.v. *)
 From Coq Require Import List ZArith Bool Permutation.
 From AV Require Import Engine.Core Engine.Sem Engine.Eval Engine.Validate Engine.Naive Engine.Interface Engine.Main.
+From AV Require Import Engine.InterfaceInvariance Engine.Invariance.
 Import ListNotations.
 
 (* The computed relations are a function of the SET of rules and the SET of input facts: two accepted plans for
-   two permutations of the rules (whatever SCC order, variants, index choices and join orders they contain), run
-   on two permutations of the input with any two join-order oracles, compute the same relations. *)
+   two permutations of the rules (whatever SCC order, variants, index choices and join orders they contain — so in
+   particular whatever the textual order of rules and declarations made the planner choose), run on two
+   permutations of the input with any two join-order oracles, compute the same relations. *)
 Theorem c06_rule_and_input_permutation : forall I swap swap' arities P P' pl pl' fuel fuel' F0 F0' st st',
   arities_functional arities -> no_agg P = true ->
   Permutation P P' -> Permutation F0 F0' -> wf_facts arities F0 = true ->
@@ -16,14 +18,42 @@ Theorem c06_rule_and_input_permutation : forall I swap swap' arities P P' pl pl'
   same_set (rows st) (rows st').
 Proof. exact run_perm_invariant. Qed.
 
-(* the least model itself only depends on the sets *)
 Theorem c06_least_model_of_sets : forall I P P' F0 F0' M,
   (forall r, In r P <-> In r P') -> same_set F0 F0' -> least_model I P F0 M -> least_model I P' F0' M.
 Proof. intros I P P' F0 F0' M HP HF HM. apply (least_model_same_input I P' F0 F0' M HF). exact (least_model_perm_rules I P P' F0 M HP HM). Qed.
 
-(* PARTIAL: the full statement of C06 also covers (a) permutation of head clauses within a rule and of mutually
-   independent body items, (b) alpha-renaming of variables / relations, (c) injective renaming of the constants for
-   programs without interpreted functions.  (a)-(c) are not yet theorems; they are exercised by the tie
-   (gen/props/c06.py: every variant through the real macro must equal the base program's least model mapped). *)
+(* what a rule derives does not depend on the order of its head clauses ... *)
+Theorem c06_head_clause_permutation : forall I db r hs', Permutation (heads r) hs' ->
+  same_facts (derive_rule I db r) (derive_rule I db {| heads := hs'; body := body r |}).
+Proof. exact head_perm. Qed.
+
+(* ... nor on the order of two adjacent body items that mention no common variable (any item kinds, aggregates included) *)
+Theorem c06_independent_body_items_swap : forall I db hs pre b1 b2 post, independent b1 b2 ->
+  same_facts (derive_rule I db {| heads := hs; body := pre ++ b1 :: b2 :: post |})
+             (derive_rule I db {| heads := hs; body := pre ++ b2 :: b1 :: post |}).
+Proof. exact body_swap. Qed.
+
+(* ... nor on the names of its variables (any injective renaming) *)
+Theorem c06_variable_renaming : forall I db r (s : var -> var), (forall x y, s x = s y -> x = y) ->
+  same_facts (derive_rule I db r) (derive_rule I db (rename_rule s r)).
+Proof. exact alpha. Qed.
+
+(* the least model commutes with every injective renaming of the relations ... *)
+Theorem c06_relation_renaming : forall I P F0 M (q : rel -> rel), (forall a b, q a = q b -> a = b) ->
+  least_model I P F0 M -> least_model I (map (rename_rel_rule q) P) (map (rename_rel_fact q) F0) (map (rename_rel_fact q) M).
+Proof. exact rel_rename. Qed.
+
+(* ... and, for programs without interpreted functions, with every injective renaming of the constants (a change of
+   the column type is such a renaming) *)
+Theorem c06_constant_renaming : forall I P F0 M (f : Z -> Z), (forall a b, f a = f b -> a = b) -> forallb pure_rule P = true ->
+  least_model I P F0 M -> least_model I (map (map_rule f) P) (map (map_fact f) F0) (map (map_fact f) M).
+Proof. exact const_rename. Qed.
+
+(* These five are statements about the SPECIFICATION (Engine/Sem.v); together with C01 (the engine computes the least
+   model for whatever plan the macro produces for the permuted / renamed program) they give the invariance of the
+   computed relations.  "Identifiers reserved by the generated code aside": the name spaces the desugarer generates
+   from are C07's known finding.  The metamorphic tie (gen/props/c06.py) runs every variant through the real macro. *)
 
 Print Assumptions c06_rule_and_input_permutation. Print Assumptions c06_least_model_of_sets.
+Print Assumptions c06_head_clause_permutation. Print Assumptions c06_independent_body_items_swap.
+Print Assumptions c06_variable_renaming. Print Assumptions c06_relation_renaming. Print Assumptions c06_constant_renaming.
